@@ -42,6 +42,7 @@ def shapes(tier, seed):
         out.append(('orders', carrier, 'prefix-unsigned'))
         out.append(('orders', carrier, 'wrong-sig'))
         out.append(('orders', carrier, 'dup-name'))       # one parameter name twice with different values (ties for any sort keyed by name)
+        out.append(('orders', carrier, 'fold'))           # form folding on: the rebuilt URI that is handed back must not depend on map order either
         out.append(('repeat', carrier, 'dup-name'))
         out.append(('repeat', carrier, 'signed'))
         out.append(('repeat', carrier, 'wrong-sig'))
@@ -67,7 +68,20 @@ def build(m, ctx, carrier, variant, key):
     for e in hv:
         ctx.assume(z3.And(z3.UGE(e.z(), 0x21), z3.ULE(e.z(), 0x7E)))
     headers = [('x-amz-meta-b', [hv[0]]), ('host', conc_bytes('h')), ('x-amz-meta-a', [hv[1]]), ('x-other', conc_bytes('o'))]
-    signed = ['host', 'x-amz-meta-a', 'x-amz-meta-b'] if variant != 'prefix-unsigned' else ['host']
+    body = []
+    method = 'GET'
+    if variant == 'fold':
+        # lean request (few map entries: the number of explored iteration orders is exponential in the number of map walks)
+        fv = [Int('u8', ctx.fresh_bv('fv%d' % i, 8)) for i in range(2)]
+        for e in fv:
+            ctx.assume(zb(R.unreserved_f(e)))
+        pairs = [(conc_bytes('zeta'), [vals[0]]), (conc_bytes('yankee'), [fv[0]]), (conc_bytes('bravo'), [fv[1]])]
+        wire_q = conc_bytes('zeta=') + [vals[0]]
+        headers = [('host', conc_bytes('h')), ('content-type', conc_bytes('application/x-www-form-urlencoded'))]
+        signed = ['host']
+        body = conc_bytes('yankee=') + [fv[0]] + conc_bytes('&bravo=') + [fv[1]]
+        method = 'POST'
+    signed = ['host', 'x-amz-meta-a', 'x-amz-meta-b'] if variant not in ('prefix-unsigned', 'fold') else ['host']
     ts = TS if variant != 'bad-date' else '2015-13-45T99:99:99Z'
     cred = conc_bytes(AKID + '/' + SCOPE)
     if variant == 'bad-query':
@@ -77,7 +91,7 @@ def build(m, ctx, carrier, variant, key):
         headers.append(('x-amz-date', conc_bytes(ts)))
         signed = sorted(signed + ['x-amz-date'])
         cq = R.ref_canon_query_from_pairs(ctx, pairs)
-        sig, _, _ = ref_sign(m, key, ctx, 'GET', conc_bytes('/'), cq, headers, signed, [], conc_bytes(TS), conc_bytes(SCOPE))
+        sig, _, _ = ref_sign(m, key, ctx, method, conc_bytes('/'), cq, headers, signed, [], conc_bytes(TS), conc_bytes(SCOPE))
         if variant == 'wrong-sig':
             sig = sig[:-1] + [Int('u8', z3.If(sig[-1].z() == 0x30, z3.BitVecVal(0x31, 8), z3.BitVecVal(0x30, 8)))]
         headers.append(('authorization', auth_header(cred, signed, sig)))
@@ -88,11 +102,11 @@ def build(m, ctx, carrier, variant, key):
             pairs.append((conc_bytes(n), conc_bytes(v)))
             wire_q += conc_bytes('&' + n + '=') + R.pct_encode(ctx, conc_bytes(v))
         cq = R.ref_canon_query_from_pairs(ctx, pairs)
-        sig, _, _ = ref_sign(m, key, ctx, 'GET', conc_bytes('/'), cq, headers, signed, [], conc_bytes(TS), conc_bytes(SCOPE))
+        sig, _, _ = ref_sign(m, key, ctx, method, conc_bytes('/'), cq, headers, signed, [], conc_bytes(TS), conc_bytes(SCOPE))
         if variant == 'wrong-sig':
             sig = sig[:-1] + [Int('u8', z3.If(sig[-1].z() == 0x30, z3.BitVecVal(0x31, 8), z3.BitVecVal(0x30, 8)))]
         wire_q += conc_bytes('&X-Amz-Signature=') + sig
-    return Req('GET', b'/', wire_q, headers, b'', 'bytes')
+    return Req(method, b'/', wire_q, headers, body, 'bytes')
 
 
 def summary(o):
@@ -125,10 +139,11 @@ def run_shape(prog, shape, tier, seed, res):
         _, carrier, variant = shape
         key = sym_bytes(ctx, 'key', 32)
         reqs = requirements('slice', prefixes=['x-amz-meta'])
+        opts = options(False, variant == 'fold')
         if kind == 'orders':
-            m.hash_order = 'cover'
+            m.hash_order = 'cover' if variant != 'fold' else 'two'
             rq = build(m, ctx, carrier, variant, key)
-            r, _ = run(m, rq, 'us-east-1', 'service', provider_ok(key), instant(T0), reqs)
+            r, _ = run(m, rq, 'us-east-1', 'service', provider_ok(key), instant(T0), reqs, opts)
             return ('orders', rq, summary(outcome(r)))
         if kind == 'history':
             # a defective request first, then a correctly signed one on the same thread / in the same process
@@ -140,8 +155,8 @@ def run_shape(prog, shape, tier, seed, res):
             return ('history', good, summary(outcome(rb)), summary(outcome(rg)))
         m.hash_order = 'two'
         rq = build(m, ctx, carrier, variant, key)
-        r1, _ = run(m, rq, 'us-east-1', 'service', provider_ok(key), instant(T0), reqs)
-        r2, _ = run(m, rq, 'us-east-1', 'service', provider_ok(key), instant(T0), reqs)
+        r1, _ = run(m, rq, 'us-east-1', 'service', provider_ok(key), instant(T0), reqs, opts)
+        r2, _ = run(m, rq, 'us-east-1', 'service', provider_ok(key), instant(T0), reqs, opts)
         return ('repeat', rq, summary(outcome(r1)), summary(outcome(r2)))
 
     def on_path(pr):
@@ -242,10 +257,30 @@ def static_scan(prog):
     return {'static_mut_items': static_mut, 'statics': statics, 'interior_mutability_mentions_in_src': interior}
 
 
-def native_repeat(rp, j, reqs=None):
-    nat = native_validate(rp, j, 'us-east-1', 'service', T0, provider={'result': {'signing_key_hex': '00' * 32}}, reqs=reqs)
+def native_repeat(rp, j, reqs=None, fold=False, with_uri=False):
+    nat = native_validate(rp, j, 'us-east-1', 'service', T0, provider={'result': {'signing_key_hex': '00' * 32}}, reqs=reqs,
+                          opts={'s3': False, 'url_encode_form': fold})
     res = nat.get('result', {})
-    return 'ok' if 'ok' in res else res.get('err', {}).get('kind', 'panic')
+    kind = 'ok' if 'ok' in res else res.get('err', {}).get('kind', 'panic')
+    if with_uri:
+        return kind, (res['ok'].get('uri') if 'ok' in res else None)
+    return kind
+
+
+def sign_fold(base, carrier, signed_names):
+    """Concrete signature for a POST whose form body is folded into the query (payload hash of the empty string)."""
+    uri = base['uri']
+    path, _, q = uri.partition('?')
+    body = bytes.fromhex(base['body_hex']).decode('latin-1')
+    _, cq = c02.py_canon(path, q + '&' + body)
+    headers = [(n, bytes.fromhex(v)) for n, v in base['headers']]
+    sig, _, _ = py_sign(bytes(32), 'POST', b'/', cq, headers, signed_names, b'', TS, SCOPE, is_key=True)
+    j = json.loads(json.dumps(base))
+    if carrier == 'header':
+        j['headers'].append(['authorization', ('AWS4-HMAC-SHA256 Credential=%s/%s, SignedHeaders=%s, Signature=%s' % (AKID, SCOPE, ';'.join(signed_names), sig)).encode().hex()])
+    else:
+        j['uri'] = uri + '&X-Amz-Signature=' + sig
+    return j
 
 
 def replay_finding(rp, f):
@@ -276,7 +311,7 @@ def replay_finding(rp, f):
     carrier, variant = inp['shape'][1], inp['shape'][2]
     j = inp['request']
     base = c02.strip_signature(j, carrier)
-    signed_names = ['host'] if variant == 'prefix-unsigned' else ['host', 'x-amz-meta-a', 'x-amz-meta-b']
+    signed_names = ['host'] if variant in ('prefix-unsigned', 'fold') else ['host', 'x-amz-meta-a', 'x-amz-meta-b']
     signed_names = sorted(signed_names + (['x-amz-date'] if carrier == 'header' else []))
 
     def resign(rq):
@@ -291,6 +326,10 @@ def replay_finding(rp, f):
 
     def kinds_of(rq, n=64):
         return {native_repeat(rp, rq, reqs) for _ in range(n)}
+    if variant == 'fold':
+        sg = sign_fold(base, carrier, signed_names)
+        seen = {native_repeat(rp, sg, reqs, fold=True, with_uri=True) for _ in range(64)}
+        return len(seen) > 1, {'native_outcomes_and_returned_uris_over_64_runs': sorted(map(str, seen))[:4], 'distinct': len(seen)}
     k1 = kinds_of(resign(base))
     if len(k1) > 1:
         return True, {'native_kinds_over_64_runs': sorted(k1)}
